@@ -1229,8 +1229,8 @@ Library read_gds(const char* filename, double unit, double tolerance, const Set<
                 if (reference) {
                     Repetition* repetition = &reference->repetition;
                     repetition->type = RepetitionType::Rectangular;
-                    repetition->columns = data16[0];
-                    repetition->rows = data16[1];
+                    repetition->columns = (uint16_t)data16[0];
+                    repetition->rows = (uint16_t)data16[1];
                 }
                 break;
             case GdsiiRecord::TEXTTYPE:
